@@ -71,9 +71,14 @@ Qed.
 
 Lemma not_excluded_iff q e : not_excluded_b q e = true <-> not_excluded q e.
 Proof.
-  unfold not_excluded_b, not_excluded. destruct (is_blinded (e_kind e));
+  unfold not_excluded_b, not_excluded. destruct (is_blinded (e_kind e)).
+  - rewrite negb_true_iff, <-not_true_iff_false, mem_z_In; reflexivity.
+  - apply forallb_Forall. intros i.
     rewrite negb_true_iff, <-not_true_iff_false, mem_z_In; reflexivity.
 Qed.
+
+Lemma usable_iff e : usable_b e = true <-> usable e.
+Proof. unfold usable_b, usable. rewrite !andb_true_iff. tauto. Qed.
 
 Lemma fee_ok_iff l : fee_ok_b l = true <-> fee_ok l.
 Proof.
@@ -88,7 +93,7 @@ Qed.
 Lemma leg_ok_iff q l : leg_ok_b q l = true <-> leg_ok q l.
 Proof.
   unfold leg_ok_b, leg_ok.
-  rewrite !andb_true_iff, not_excluded_iff, kind_ok_iff, Z.leb_le, fee_ok_iff. tauto.
+  rewrite !andb_true_iff, usable_iff, not_excluded_iff, kind_ok_iff, Z.leb_le, fee_ok_iff. tauto.
 Qed.
 
 Lemma raised_iff overpay l :
